@@ -9,12 +9,13 @@
    All theorems hold for every well-formed configuration (all header field values,
    all options / extension headers, both host endiannesses) and every payload.
 
-   Sinks: `build` is what reaches an infallible sink.  That write(io::Write),
-   write_to_vec and write_to_slice deliver the same bytes / the same verdict, that a
-   slice shorter than size() is refused untouched and that the inner slice writer
-   cannot fail once size() bytes are reserved is C16_builder_space /
-   C16_builder_write_fault (quantified over arbitrary part encodings, hence over
-   these); the correspondence run compares all three sinks on every case.
+   Sinks: `build` is what reaches an infallible sink.  That write(io::Write), write_to_vec and
+   write_to_slice deliver these bytes / this verdict is C10_sink_bridge + C10_three_sinks (last
+   part of this file): `bcfg_of` instantiates the abstract part encodings of C16's write program
+   (IoFault/Model.v) with the encodings of this model, the program is shown to write exactly
+   `build_run`'s bytes with its verdict (error outcomes included), and C16_builder_space /
+   C16_builder_write_fault are instantiated with it; the correspondence run additionally compares
+   all three sinks of the real crate on every case.
 
    Round 1 left three groups of statements to the per-case oracle; they are proved now:
      - all transport checksums (TCP incl. options, ICMPv4, ICMPv6, UDP) verify and equal the
@@ -34,8 +35,20 @@
        RFC-table decoders of C17 return the configured type, all its fields and the payload;
      - the cases excluded by `payload_admitted` are theorems now: C10_parse_back_upto_ip (no
        hypothesis), C10_parse_back_upto_transport (chain_ok), C10_timestamp_wrong_size_rejected
-       (the decoder's exact answer), and C10_parse_back_refuted_* show that the full parse-back
-       equation FAILS for every excluded number / timestamp size (the exclusion is necessary). *)
+       (the decoder's exact answer, for ANY wrong size), and C10_parse_back_refuted_* give one
+       witness per excluded number and four timestamp witnesses for which the full parse-back
+       equation FAILS (the exclusions are necessary).
+   Audit follow-up (last part of this file):
+     - C10_build_bytes_ok, C10_crate_parse_back(_ether_type), C10_crate_never_bug: the MODEL OF THE
+       CRATE'S SLICER (SlicedPacket::from_ethernet / from_linux_sll / from_ip / from_ether_type,
+       Parse/Cursor.v) returns Ok with the view expected_x on the built bytes (composition with C03);
+     - C10_sink_bridge, C10_three_sinks, C10_three_sinks_ok, C10_model_write_to_slice: the three sinks;
+     - C10_link_values_back: link / VLAN / IPv6 / ARP / UDP header VALUES through the C08 decoders
+       (the conjuncts of C10_layers_as_configured compare with the model's own encoders);
+     - C10_icmp_wf_gap, C10_icmp_typed_pairs, C10_icmp4/6_value_back_cfg: the ICMP value theorems
+       with the one hypothesis cfg_wf does not contain made explicit.
+   Pseudo headers: `ck_pseudo` uses the source / destination fields of the emitted IP header (what a
+   receiver sees; the crate does not consult a configured IPv6 Routing header, RFC 8200 8.1). *)
 From EP Require Import Base.Bytes Checksum.Spec Checksum.Model.
 From EP Require Roundtrip.Common Roundtrip.Tcp Roundtrip.Ipv4 ExtChain.Spec ExtChain.Model BitFields.Model.
 From EP Require Import Parse.Types Parse.View Parse.WireSpec.
@@ -705,3 +718,299 @@ Proof.
   split; [vm_compute; reflexivity|]. split; [vm_compute; reflexivity|].
   eexists. split; vm_compute; reflexivity.
 Qed.
+
+(* ==================================================================================================
+   Audit follow-up (round 1 audit, notes/audit1/C10.md): the clauses of the property statement that
+   were reached only indirectly.
+   ================================================================================================== *)
+From EP Require Parse.Slices Parse.Cursor Parse.StrictProofs.
+From EP Require IoFault.Spec IoFault.Model IoFault.Proofs.
+From EP Require Roundtrip.Eth Roundtrip.Sll Roundtrip.Vlan Roundtrip.Ipv6 Roundtrip.Arp Roundtrip.Udp.
+From EP Require Import Builder.ProofsCrate Builder.ProofsSinks Builder.ProofsLink.
+
+(* ---- "strict parsing accepts them": the model of the CRATE's slicer, not only the reference decoder ----
+   every byte of a built packet is a byte.  Premises: cfg_wf (it contains bytes_okb of every
+   address / option / ICV buffer of the configuration) and bytes_ok of the payload. *)
+Theorem C10_build_bytes_ok : forall e c p bs,
+  cfg_wf c = true -> bytes_ok p -> build e c p = BOk bs -> bytes_ok bs.
+Proof. exact build_bytes_ok. Qed.
+Print Assumptions C10_build_bytes_ok.
+
+(* crate_entry c = SlicedPacket::from_ethernet / from_linux_sll / from_ip (Parse/Cursor.v, the
+   transliteration of the crate's slicers that C03 refines against the reference decoder), chosen by
+   the link layer of the builder.  Composition of C10_parse_back with C03's from_*_rel
+   (Parse/StrictProofs.v) through C10_build_bytes_ok: the crate-side slicer returns Ok, and the
+   observer view of its result (windows, protocol numbers, fragmentation flags, length sources) is
+   exactly the configured layout expected_x. *)
+Theorem C10_crate_parse_back : forall e c p bs,
+  cfg_wf c = true -> bytes_ok p -> payload_admitted c (len p) = true -> build e c p = BOk bs ->
+  exists sp, crate_entry c bs = Ok sp /\ view sp = expected_x c (len p).
+Proof. exact crate_parse_back. Qed.
+Print Assumptions C10_crate_parse_back.
+
+Theorem C10_crate_parse_back_ether_type : forall e c p bs,
+  cfg_wf c = true -> bytes_ok p -> payload_admitted c (len p) = true -> build e c p = BOk bs ->
+  c_link c = LkNone ->
+  let x := expected_x c (len p) in
+  exists sp, EP.Parse.Cursor.SlicedPacket.from_ether_type (net_ether_type (c_net c)) bs = Ok sp /\
+    view sp = mkVPacket (Some (VEtherPayload (mkVEp (net_ether_type (c_net c)) LsSlice (0, len bs))))
+                        (v_exts x) (v_net x) (v_transport x).
+Proof. exact crate_parse_back_ether_type. Qed.
+Print Assumptions C10_crate_parse_back_ether_type.
+
+(* whatever the payload: no entry point of the slicer model reaches a Bug value on built bytes *)
+Theorem C10_crate_never_bug : forall e c p bs et b, cfg_wf c = true -> bytes_ok p -> build e c p = BOk bs ->
+  EP.Parse.Cursor.SlicedPacket.from_ethernet bs <> Bug b /\ EP.Parse.Cursor.SlicedPacket.from_linux_sll bs <> Bug b /\
+  EP.Parse.Cursor.SlicedPacket.from_ether_type et bs <> Bug b /\ EP.Parse.Cursor.SlicedPacket.from_ip bs <> Bug b.
+Proof. exact crate_never_bug. Qed.
+Print Assumptions C10_crate_never_bug.
+
+(* ---- "identical through write, write_to_vec and write_to_slice" ----
+   C16 (IoFault/Model.v) models final_write_with_net as a write program over abstract part
+   encodings (bcfg) and proves what each sink makes of such a program.  bcfg_of e c p
+   (Builder/ProofsSinks.v) instantiates the parts with the encodings of this model.
+   C10_sink_bridge: that program writes exactly the bytes and ends with exactly the verdict of
+   build_run, for EVERY well-formed configuration (error outcomes included); its declared part
+   lengths are the lengths of the encodings (bcfg_wf, the hypothesis of C16_builder_space) and
+   C16's final_size is this model's final_size. *)
+Theorem C10_sink_bridge : forall e c p, cfg_wf c = true ->
+  let prog := IO.final_write_with_net (bcfg_of e c p) p in
+  IO.wprog_bytes prog = snd (build_run e c p) /\
+  IO.wprog_verdict prog = verdict_of (fst (build_run e c p)) /\
+  IOP.bcfg_wf (bcfg_of e c p) /\
+  forall n, IO.final_size (bcfg_of e c p) n = final_size c n.
+Proof.
+  exact (fun e c p W => conj (proj1 (bridge e c p W)) (conj (proj2 (bridge e c p W))
+           (conj (bcfg_of_wf e c p) (fun n => size_bridge e c p n W)))).
+Qed.
+Print Assumptions C10_sink_bridge.
+
+(* Instantiating C16_builder_space / C16_builder_write_fault / the VecWriter with it: with
+   (v, out) = build_run e c p,
+     write_to_vec   returns v and appends exactly out;
+     write          into a sink failing at byte k: k >= |out| -> returns v, the sink holds out;
+                    k < |out| -> Err(Io), the sink holds the first k bytes of out;
+     write_to_slice |buffer| < size() -> Space(size()), buffer untouched; otherwise returns v
+                    (Ok carries size()), the buffer starts with out, the rest is untouched;
+   |out| <= size(), with equality on success. *)
+Theorem C10_three_sinks : forall e c p, cfg_wf c = true ->
+  let b := bcfg_of e c p in
+  let out := snd (build_run e c p) in
+  let v := verdict_of (fst (build_run e c p)) in
+  let size := final_size c (len p) in
+  IO.run_w IO.vec_write_all (IO.final_write_with_net b p) [] = (IO.ret_of v, out) /\
+  (forall k chunk zero, 1 <= chunk ->
+     let r := IO.builder_write b p (IOP.fresh_sink k chunk zero) in
+     (len out <= k -> fst r = IO.ret_of v /\ IOS.fs_got (snd r) = out) /\
+     (k < len out -> fst r = IO.RIo (if zero then IOS.KWriteZero else IOS.KOther) /\
+                     IOS.fs_got (snd r) = take k out)) /\
+  (forall buffer,
+     (len buffer < size -> IO.final_write_to_slice b buffer p = (IO.BSpace size, buffer)) /\
+     (size <= len buffer ->
+        IO.final_write_to_slice b buffer p = (IOP.bres_of size v, out ++ drop (len out) buffer))) /\
+  len out <= size /\ (v = IO.VOk -> len out = size).
+Proof. exact three_sinks. Qed.
+Print Assumptions C10_three_sinks.
+
+(* the successful case: all three sinks deliver `build e c p`; write_to_slice needs exactly size() bytes *)
+Theorem C10_three_sinks_ok : forall e c p bs, cfg_wf c = true -> build e c p = BOk bs ->
+  let b := bcfg_of e c p in
+  let size := final_size c (len p) in
+  len bs = size /\
+  IO.run_w IO.vec_write_all (IO.final_write_with_net b p) [] = (IO.ROk, bs) /\
+  (forall k chunk zero, 1 <= chunk -> size <= k ->
+     let r := IO.builder_write b p (IOP.fresh_sink k chunk zero) in fst r = IO.ROk /\ IOS.fs_got (snd r) = bs) /\
+  (forall buffer,
+     (len buffer < size -> IO.final_write_to_slice b buffer p = (IO.BSpace size, buffer)) /\
+     (size <= len buffer -> IO.final_write_to_slice b buffer p = (IO.BOk size, bs ++ drop size buffer))).
+Proof. exact three_sinks_ok. Qed.
+Print Assumptions C10_three_sinks_ok.
+
+(* Builder.Model.write_to_slice (result value only) is the result of C16's final_write_to_slice *)
+Theorem C10_model_write_to_slice : forall e c p buffer, cfg_wf c = true ->
+  write_to_slice e c (len buffer) p = sres_of (fst (IO.final_write_to_slice (bcfg_of e c p) buffer p)) c e p.
+Proof. exact model_write_to_slice_is_c16. Qed.
+Print Assumptions C10_model_write_to_slice.
+
+(* ---- "parsing recovers the supplied addresses": through the crate's header decoders ----
+   C08 models of Ethernet2Header / LinuxSllHeader / SingleVlanHeader / Ipv6Header / ArpPacket /
+   UdpHeader ::from_slice applied to the built bytes at the computed offsets return the configured
+   structs (eth_of / sll_of / vl_of / ip6_of / arp_of / udp_of: the supplied fields, the ether type /
+   next header / length fields as derived) and the rest of the packet.  IPv4 / TCP / ICMP / extension
+   headers: C10_parse_back_ipv4_header_partial, C10_parse_back_tcp_partial, C10_icmp*_value_back,
+   C10_layers_as_configured. *)
+Theorem C10_link_values_back : forall e c p bs, cfg_wf c = true -> build e c p = BOk bs ->
+  match c_link c with
+  | LkNone => True
+  | LkEthernet2 s d =>
+      Eth.eth_from_slice bs = Roundtrip.Common.Ok (eth_of s d (link_announces c), drop 14 bs)
+  | LkLinuxSll pt vl a =>
+      Sll.sll_from_slice bs = Roundtrip.Common.Ok (sll_of pt vl a (net_et c), drop 16 bs)
+  end /\
+  match c_vlan c with
+  | VlNone => True
+  | VlSingle v =>
+      Vlan.vl_from_slice (drop (off_vlan c) bs)
+      = Roundtrip.Common.Ok (vl_of (vlan_set_ether_type v (net_et c)), drop (off_vlan c + 4) bs)
+  | VlDouble o i =>
+      Vlan.vl_from_slice (drop (off_vlan c) bs)
+      = Roundtrip.Common.Ok (vl_of (vlan_set_ether_type o 33024), drop (off_vlan c + 4) bs) /\
+      Vlan.vl_from_slice (drop (off_vlan c + 4) bs)
+      = Roundtrip.Common.Ok (vl_of (vlan_set_ether_type i (net_et c)), drop (off_vlan c + 8) bs)
+  end /\
+  match c_net c with
+  | NtIpv4 _ _ => True
+  | NtIpv6 h x =>
+      Ipv6.ip6_from_slice (drop (off_net c) bs)
+      = Roundtrip.Common.Ok (ip6_of (v6_final h x (c_transport c) (len p)), drop (off_net c + 40) bs)
+  | NtArp a => Arp.arp_from_slice (drop (off_net c) bs) = Roundtrip.Common.Ok (arp_of a)
+  end /\
+  match c_net c, c_transport c with
+  | NtArp _, _ => True
+  | _, TrUdp sp dp =>
+      exists ck, ck < 65536 /\
+        Udp.udp_from_slice (drop (off_transport c) bs) = Roundtrip.Common.Ok (udp_of sp dp (8 + len p) ck, p)
+  | _, _ => True
+  end.
+Proof. exact link_values_back. Qed.
+Print Assumptions C10_link_values_back.
+
+(* ---- the ICMP value theorems: what the hypothesis beyond cfg_wf excludes ----
+   wf_icmp4_type / wf_icmp6_type = the field ranges (part of cfg_wf) AND "a raw Unknown{type, code}
+   does not name a typed kind".  With cfg_wf the hypothesis is exactly the second part, and it
+   concerns only icmpv4_raw / icmpv6_raw values: *)
+Theorem C10_icmp_wf_gap :
+  (forall t, icmp4_cfg_wf t = true -> Icmp4.wf_icmp4_type t = negb (icmp4_raw_names_typed t)) /\
+  (forall t, icmp6_cfg_wf t = true -> Icmp6.wf_icmp6_type t = negb (icmp6_raw_names_typed t)).
+Proof. exact (conj icmp4_wf_gap icmp6_wf_gap). Qed.
+Print Assumptions C10_icmp_wf_gap.
+
+(* the (type, code) pairs a raw value must not name -- complete sweep over 256 x 256 *)
+Theorem C10_icmp_typed_pairs :
+  filter (fun q => Icmp4.icmp4_typed (fst q) (snd q)) all_pairs = icmp4_typed_pairs /\
+  filter (fun q => Icmp6.icmp6_typed (fst q) (snd q)) all_pairs = icmp6_typed_pairs.
+Proof. exact icmp_typed_pairs_exact. Qed.
+Print Assumptions C10_icmp_typed_pairs.
+
+Theorem C10_icmp4_value_back_cfg : forall e c p bs t, cfg_wf c = true -> build e c p = BOk bs ->
+  c_transport c = TrIcmpv4 t -> (forall a, c_net c <> NtArp a) ->
+  icmp4_raw_names_typed t = false ->
+  exists ck, ck < 65536 /\
+    let seg := drop (off_transport c) bs in
+    let h := {| Icmp4.icmp4_type := t; Icmp4.icmp4_checksum := ck |} in
+    Icmp4.icmp4_read seg = Roundtrip.Common.Ok (h, p) /\
+    (Icmp4.icmp4_type_header_len t = 8 \/ p = [] ->
+     Icmp4.icmp4_from_slice seg = Roundtrip.Common.Ok (h, p) /\
+     CtlMsg.Spec.icmp4 seg = CtlMsg.Spec.Ok (t, Icmp4.icmp4_type_header_len t, p) /\
+     CtlMsg.Model.Icmpv4Slice.view seg = CtlMsg.Spec.Ok (t, Icmp4.icmp4_type_header_len t, p)).
+Proof. exact icmp4_value_back_cfg. Qed.
+Print Assumptions C10_icmp4_value_back_cfg.
+
+Theorem C10_icmp6_value_back_cfg : forall e c p bs t, cfg_wf c = true -> build e c p = BOk bs ->
+  c_transport c = TrIcmpv6 t -> (forall a, c_net c <> NtArp a) ->
+  icmp6_raw_names_typed t = false ->
+  exists ck, ck < 65536 /\
+    let seg := drop (off_transport c) bs in
+    let h := {| Icmp6.icmp6_type := t; Icmp6.icmp6_checksum := ck |} in
+    Icmp6.icmp6_read seg = Roundtrip.Common.Ok (h, p) /\
+    Icmp6.icmp6_from_slice seg = Roundtrip.Common.Ok (h, p) /\
+    CtlMsg.Spec.icmp6 seg = CtlMsg.Spec.Ok (t, p) /\
+    CtlMsg.Model.Icmpv6Slice.view seg = CtlMsg.Spec.Ok (t, p).
+Proof. exact icmp6_value_back_cfg. Qed.
+Print Assumptions C10_icmp6_value_back_cfg.
+
+(* statement pinning *)
+Check (C10_build_bytes_ok : forall e c p bs,
+  cfg_wf c = true -> bytes_ok p -> build e c p = BOk bs -> bytes_ok bs).
+Check (C10_crate_parse_back : forall e c p bs,
+  cfg_wf c = true -> bytes_ok p -> payload_admitted c (len p) = true -> build e c p = BOk bs ->
+  exists sp, crate_entry c bs = Ok sp /\ view sp = expected_x c (len p)).
+
+(* ---- non-vacuity of the follow-up theorems ---- *)
+(* the documentation example through the crate's slicer model *)
+Example C10_ex_crate_parse_back :
+  cfg_wf ex_cfg = true /\ bytes_ok ex_payload /\ payload_admitted ex_cfg 8 = true /\ bytes_ok ex_bytes /\
+  exists sp, crate_entry ex_cfg ex_bytes = Ok sp /\ view sp = expected_x ex_cfg 8 /\
+    v_transport (view sp) = Some (VUdp (34, 16)).
+Proof.
+  split; [vm_compute; reflexivity|]. split; [apply bytes_okb_spec; vm_compute; reflexivity|].
+  split; [vm_compute; reflexivity|]. split; [apply bytes_okb_spec; vm_compute; reflexivity|].
+  eexists. split; [vm_compute; reflexivity|]. split; vm_compute; reflexivity.
+Qed.
+(* two VLAN tags, IPv6 with hop-by-hop + fragment header, TCP with options *)
+Example C10_ex_crate_parse_back_x :
+  exists bs sp, build LE ex_cfg_tcp6 [1; 2; 3] = BOk bs /\ bytes_ok bs /\
+    EP.Parse.Cursor.SlicedPacket.from_ethernet bs = Ok sp /\ view sp = expected_x ex_cfg_tcp6 3 /\
+    v_transport (view sp) = Some (VTcp 24 (78, 27)).
+Proof.
+  eexists. eexists. split; [vm_compute; reflexivity|]. split; [apply bytes_okb_spec; vm_compute; reflexivity|].
+  split; [vm_compute; reflexivity|]. split; vm_compute; reflexivity.
+Qed.
+(* the three sinks on the documentation example: Vec, slice one byte too short, slice two bytes longer *)
+Example C10_ex_three_sinks :
+  let b := bcfg_of LE ex_cfg ex_payload in
+  IO.run_w IO.vec_write_all (IO.final_write_with_net b ex_payload) [] = (IO.ROk, ex_bytes) /\
+  IO.final_size b 8 = 50 /\
+  IO.final_write_to_slice b (repeat 9 49) ex_payload = (IO.BSpace 50, repeat 9 49) /\
+  IO.final_write_to_slice b (repeat 9 52) ex_payload = (IO.BOk 50, ex_bytes ++ [9; 9]) /\
+  fst (IO.builder_write b ex_payload (IOP.fresh_sink 49 7 false)) = IO.RIo IOS.KOther /\
+  IOS.fs_got (snd (IO.builder_write b ex_payload (IOP.fresh_sink 49 7 false))) = take 49 ex_bytes /\
+  IO.builder_write b ex_payload (IOP.fresh_sink 50 7 false) = (IO.ROk, IOS.mk_fsink 0 7 false ex_bytes) /\
+  write_to_slice LE ex_cfg 49 ex_payload = SSpace 50 /\ write_to_slice LE ex_cfg 50 ex_payload = SOk 50.
+Proof. cbv zeta. repeat split; vm_compute; reflexivity. Qed.
+(* an error outcome through the sinks: ICMPv6 in IPv4 behind a VLAN tag -- link, VLAN, IP header
+   (38 bytes) have been written when the error is detected *)
+Example C10_ex_three_sinks_err :
+  let b := bcfg_of LE ex_cfg_icmp6 [1] in
+  IO.run_w IO.vec_write_all (IO.final_write_with_net b [1]) []
+    = (IO.RContent IO.CIcmpv6InIpv4, snd (build_run LE ex_cfg_icmp6 [1])) /\
+  len (snd (build_run LE ex_cfg_icmp6 [1])) = 38 /\ IO.final_size b 1 = 47 /\
+  fst (IO.final_write_to_slice b (repeat 0 47) [1]) = IO.BContent IO.CIcmpv6InIpv4 /\
+  IO.final_write_to_slice b (repeat 0 46) [1] = (IO.BSpace 47, repeat 0 46).
+Proof. cbv zeta. repeat split; vm_compute; reflexivity. Qed.
+(* decoders on built bytes: Ethernet II + two VLAN tags + IPv6; Linux SLL; ARP; UDP *)
+Definition ex_arp : ArpPacket := mkArp 1 2048 2 [1; 2; 3; 4; 5; 6] [10; 0; 0; 1] [7; 8; 9; 10; 11; 12] [10; 0; 0; 2].
+Definition ex_cfg_arp : cfg :=
+  mkCfg (c_link ex_cfg) (VlSingle (BitFields.Model.mkVlan 5 true 1234 0)) (NtArp ex_arp) (TrNone 0).
+Example C10_ex_link_values :
+  (exists bs, build LE ex_cfg_tcp6 [1; 2; 3] = BOk bs /\
+     Eth.eth_from_slice bs
+     = Roundtrip.Common.Ok ({| Eth.eth_source := [1; 2; 3; 4; 5; 6]; Eth.eth_destination := [7; 8; 9; 10; 11; 12];
+                               Eth.eth_ether_type := 34984 |}, drop 14 bs) /\
+     Vlan.vl_from_slice (drop 18 bs)
+     = Roundtrip.Common.Ok ({| Vlan.vl_pcp := 2; Vlan.vl_drop_eligible_indicator := true; Vlan.vl_vlan_id := 200;
+                               Vlan.vl_ether_type := 34525 |}, drop 22 bs) /\
+     exists h6, Ipv6.ip6_from_slice (drop 22 bs) = Roundtrip.Common.Ok (h6, drop 62 bs) /\
+       Ipv6.i6_payload_length h6 = 43 /\ Ipv6.i6_next_header h6 = 0 /\ Ipv6.i6_flow_label h6 = 74565 /\
+       Ipv6.i6_source h6 = BitFields.Model.v6_source ex_ip6) /\
+  (exists bs, build LE ex_cfg_icmp6_sll [104; 105; 33] = BOk bs /\
+     Sll.sll_from_slice bs
+     = Roundtrip.Common.Ok ({| Sll.sll_packet_type := 4; Sll.sll_arp_hrd_type := 1;
+                               Sll.sll_sender_address_valid_length := 6;
+                               Sll.sll_sender_address := [1; 2; 3; 4; 5; 6; 0; 0];
+                               Sll.sll_protocol_type := Sll.SllEtherType 34525 |}, drop 16 bs)) /\
+  (cfg_wf ex_cfg_arp = true /\
+   exists bs, build LE ex_cfg_arp [] = BOk bs /\ len bs = 46 /\
+     Arp.arp_from_slice (drop 18 bs) = Roundtrip.Common.Ok (arp_of ex_arp) /\
+     Arp.arp_operation (arp_of ex_arp) = 2 /\ Arp.arp_target_protocol_addr_buf (arp_of ex_arp) = [10; 0; 0; 2]) /\
+  Udp.udp_from_slice (drop 34 ex_bytes)
+  = Roundtrip.Common.Ok ({| Udp.udp_source_port := 21; Udp.udp_destination_port := 1234; Udp.udp_length := 16;
+                            Udp.udp_checksum := 26495 |}, ex_payload).
+Proof.
+  split; [|split; [|split]].
+  - eexists. split; [vm_compute; reflexivity|]. split; [vm_compute; reflexivity|]. split; [vm_compute; reflexivity|].
+    eexists. split; [vm_compute; reflexivity|]. repeat split; vm_compute; reflexivity.
+  - eexists. split; vm_compute; reflexivity.
+  - split; [vm_compute; reflexivity|]. eexists. split; [vm_compute; reflexivity|]. repeat split; vm_compute; reflexivity.
+  - vm_compute. reflexivity.
+Qed.
+(* which raw values the ICMP value theorems exclude *)
+Example C10_ex_raw_names_typed :
+  icmp4_raw_names_typed (CtlMsg.Spec.V4Unknown 8 0 0 1 0 2) = true /\
+  icmp4_raw_names_typed (CtlMsg.Spec.V4Unknown 8 1 0 1 0 2) = false /\
+  icmp4_raw_names_typed (CtlMsg.Spec.V4Unknown 42 0 255 255 255 255) = false /\
+  icmp4_raw_names_typed (CtlMsg.Spec.V4EchoRequest 1 2) = false /\
+  icmp6_raw_names_typed (CtlMsg.Spec.V6Unknown 128 0 0 1 0 2) = true /\
+  icmp6_raw_names_typed (CtlMsg.Spec.V6Unknown 200 7 0 1 0 2) = false /\
+  length icmp4_typed_pairs = 29%nat /\ length icmp6_typed_pairs = 28%nat.
+Proof. repeat split; vm_compute; reflexivity. Qed.
